@@ -108,8 +108,20 @@ def leg_mutant(rep, work, spec, name, cfg, expect, workers=NPROC, timeout=600):
 
 def leg_r(rep, work, spec, name, cfg, driver_factory, internal=(), nproc=NPROC, max_len=80,
           budget_s=None, kf_text=None, timeout=1800, obs_var="obs", edge_filter=None, require_full=True,
-          kf_classify=None):
-    """dump the conformance graph and replay every edge into the real code"""
+          kf_classify=None, world=False):
+    """dump the conformance graph and replay every edge into the real code.  world=True: the driver is built on the
+    gated interpreter; in the thorough tier the replay is then repeated with the ready handles of each instant run in a
+    seeded random order (VERIF_SCHEDULE=random) - outcomes must not depend on it"""
+    if world and rep.tier == "thorough" and os.environ.get("VERIF_SCHEDULE") is None and not name.endswith("_rnd"):
+        first = leg_r(rep, work, spec, name, cfg, driver_factory, internal, nproc, max_len, budget_s, kf_text, timeout,
+                      obs_var, edge_filter, require_full, kf_classify, world=False)
+        os.environ["VERIF_SCHEDULE"] = "random"
+        try:
+            leg_r(rep, work, spec, name + "_rnd", cfg, driver_factory, internal, nproc, max_len, budget_s, kf_text,
+                  timeout, obs_var, edge_filter, require_full, kf_classify, world=False)
+        finally:
+            del os.environ["VERIF_SCHEDULE"]
+        return first
     p = tlc.write_cfg(cfg, work.dir, f"{spec}_{name}.cfg")
     dump = work.path(f"{spec}_{name}_graph")
     t0 = time.time()
